@@ -2,6 +2,7 @@
 from __future__ import annotations
 
 import datetime as dtm
+import enum as _enum
 import html as _html
 import importlib
 import math
@@ -16,6 +17,8 @@ import lib
 from lib import Err, err_of
 
 sys.path.insert(0, str(lib.VERIF / "tools"))
+
+import markupsafe
 
 IMPORTS = "From V Require Import Model.Pods."
 KINDS = {"StringPOD": 0, "HTMLStringPOD": 1, "BoolPOD": 2, "IntPOD": 3, "FloatPOD": 4,
@@ -285,6 +288,86 @@ HTML_VALUES = ["<p>x</p>", "plain text", "a &amp; b", "<p>unclosed", "<b><i>x</b
                "<p>a</p><p>b</p>", " lead <b>x</b> tail ", "&nbsp;\u00e9 \U0001f600", "<ul><li>1<li>2</ul>", "<!-- c -->t",
                "<p style=\"color: red\">q'\"</p>", "a\r\nb<br>c", "<table><tr><td>1</table>", "</p>stray", "<p>" + "y" * 5000 + "</p>",
                "<img src=\"data:image/png;base64,AAAA\">", "<span>\u2028\ufffd</span>"]
+
+
+# ------------------------------------------------------------------ the same value in the other Python types a setter accepts
+class StrSub(str):
+    """a plain subclass of str (what template engines / ORMs hand around)"""
+
+
+class IntSub(_enum.IntEnum):
+    SEVEN = 7
+    NEG = -12
+    BIG = 2**63
+
+
+class DtSub(dtm.datetime):
+    """a subclass of datetime (pandas.Timestamp, freezegun, arrow-like wrappers are subclasses)"""
+
+
+class NoCanon:
+    def __repr__(self):
+        return "NOCANON"
+
+
+NOCANON = NoCanon()
+
+
+def xml_well_formed(fragment: str) -> bool:
+    """the harness's own notion of well-formed markup: an XML parser accepts it as element content"""
+    from lxml import etree
+    try:
+        etree.fromstring("<r>" + fragment + "</r>")
+        return True
+    except etree.XMLSyntaxError:
+        return False
+
+
+def indep_read(kc: int, text: str, desc):
+    """what a reader of the saved XML sees: the harness's own reading of an attribute text (no capellambse code).  Returns SKIP when
+    the text is outside the layouts the harness reads"""
+    if kc in (0, 1, 7):
+        return text
+    if kc == 2:
+        return text == "true"
+    if kc == 3:
+        return int(text) if re.fullmatch(r"-?\d{1,4000}", text) else SKIP
+    if kc == 4:
+        if text == "*":
+            return math.inf
+        return float(text) if re.fullmatch(r"-?(\d+\.\d+(e[+-]?\d+)?|\d+e[+-]?\d+)", text) else SKIP
+    if kc == 5:
+        mm = re.fullmatch(r"(\d{4})-(\d\d)-(\d\d)T(\d\d):(\d\d):(\d\d)\.(\d{3})([+-])(\d\d)(\d\d)", text)
+        if not mm:
+            return SKIP
+        y, mo, d, h, mi, sec, ms, sg, oh, om = mm.groups()
+        off = (int(oh) * 60 + int(om)) * (-1 if sg == "-" else 1)
+        return dtm.datetime(int(y), int(mo), int(d), int(h), int(mi), int(sec), int(ms) * 1000, tzinfo=dtm.timezone(dtm.timedelta(minutes=off)))
+    if kc == 6:
+        ms_ = [m for m in desc.enumcls.__members__.values() if m.value == text]
+        return ms_[0] if ms_ else SKIP
+    return SKIP
+
+
+def indep_same(kc: int, rb, seen) -> bool:
+    """value read back through the API == the harness's reading of the XML text"""
+    if seen is SKIP:
+        return True
+    if kc in (0, 1):
+        return isinstance(rb, str) and str(rb) == seen
+    if kc == 2:
+        return rb is seen
+    if kc == 3:
+        return type(rb) is int and rb == seen
+    if kc == 4:
+        return type(rb) is float and rb == seen and math.copysign(1, rb) == math.copysign(1, seen)
+    if kc == 5:
+        return isinstance(rb, dtm.datetime) and rb.tzinfo is not None and dt_fields(rb) == dt_fields(seen)
+    if kc == 6:
+        return rb is seen
+    if kc == 7:
+        return hasattr(rb, "raw") and rb.raw == seen
+    return True
 
 
 def run(chk: lib.Check):
@@ -593,16 +676,32 @@ def run(chk: lib.Check):
                 use = use + [long_s]
             for s in use:
                 vals.append((s, s, s not in ILLEGAL))
+            # the same text as markupsafe.Markup / as a str subclass: stored and read back as the plain text
+            for s in rng.sample(str_vals_all[1:10], 2) + [rng.choice(ILLEGAL)]:
+                wrap = rng.choice([markupsafe.Markup, StrSub])
+                vals.append((wrap(s), s, s not in ILLEGAL, s))
             vals.append((None, None, True))
             dflt_enc = str(desc.default)
         elif kc == 1:
             use = HTML_VALUES + [""] if (not quick or desc_cnt % 12 == 0) else [rng.choice(HTML_VALUES), "", rng.choice(HTML_VALUES)]
+            # every value also as markupsafe.Markup (the type the getter returns, so what `a.description = b.description` and
+            # template code pass in) -- well-formed and ill-formed alike -- and as a str subclass
+            ill = [h for h in HTML_VALUES if not xml_well_formed(h)]
+            well = [h for h in HTML_VALUES if xml_well_formed(h)]
+            alt = [(markupsafe.Markup, h) for h in use if h] if (not quick or desc_cnt % 12 == 0) else \
+                  [(markupsafe.Markup, rng.choice(ill)), (markupsafe.Markup, rng.choice(well)), (rng.choice([markupsafe.Markup, StrSub]), rng.choice(ill))]
             for h in use:
                 try:
                     rep = str(helpers.repair_html(h))
                     vals.append((h, [h, rep], True))
                 except Exception:  # noqa: BLE001
                     vals.append((h, SKIP, False))
+            for wrap, h in alt:
+                try:
+                    rep = str(helpers.repair_html(h))
+                    vals.append((wrap(h), [h, rep], True, h))
+                except Exception:  # noqa: BLE001
+                    vals.append((wrap(h), SKIP, False, h))
             vals.append((None, None, True))
             dflt_enc = str(desc.default)
         elif kc == 2:
@@ -611,18 +710,31 @@ def run(chk: lib.Check):
         elif kc == 3:
             for z in [0, 1, -1, 2**63, -2**63, 10**30, -10**30, rng.choice(ints), rng.choice(ints)]:
                 vals.append((z, z, True))
-            vals += [(None, None, True), (1.5, SKIP, False), ("3", SKIP, False), (10**5000, SKIP, False), (True, SKIP, True)]
+            vals += [(None, None, True), (1.5, SKIP, False), ("3", SKIP, False), (10**5000, SKIP, False), (True, SKIP, True, 1),
+                     (False, SKIP, True, 0), (5.0, SKIP, False)]
+            vals += [(m_, SKIP, True, int(m_)) for m_ in IntSub]          # int subclasses: written as the plain number
             dflt_enc = desc.default
         elif kc == 4:
-            for f in [0.0, -0.0, 1.5, 5e-324, 1.7976931348623157e308, -1.7976931348623157e308, 1e22, 0.1, 5, -7, math.inf,
+            for f in [0.0, -0.0, 1.5, 5e-324, 1.7976931348623157e308, -1.7976931348623157e308, 1e22, 0.1, math.inf,
                       rand_float(rng), rand_float(rng)]:
                 vals.append((f, enc_float(f), True))
+            # the same number as an int (and int subclasses): stored as the float
+            for z in [5, -7, 0, 2**53 + 1, rng.randrange(-10**6, 10**6), 10**22]:
+                vals.append((z, enc_float(z), True, float(z)))
+            vals += [(IntSub.SEVEN, SKIP, True, 7.0), (True, SKIP, True, 1.0), (10**400, SKIP, False)]
             vals += [(math.nan, enc_float(math.nan), False), (-math.inf, enc_float(-math.inf), False), (None, None, True),
                      ("1.0", SKIP, False)]
             dflt_enc = repr(desc.default)
         elif kc == 5:
-            for d in rng.sample(dts, 12) + naive_datetimes()[:2]:
+            for d in rng.sample(dts, 12):
                 vals.append((d, enc_dt(d), True))
+            # naive (= local time of the environment) vs the aware datetime it denotes; datetime subclasses
+            for d in naive_datetimes()[:2] + [rng.choice(naive_datetimes())]:
+                vals.append((d, enc_dt(d), True, expected_aware(d)))
+            d = rng.choice(dts)
+            vals.append((DtSub(d.year, d.month, d.day, d.hour, d.minute, d.second, d.microsecond, tzinfo=d.tzinfo), enc_dt(d), True, d))
+            d = rng.choice(dts)
+            vals.append((d.astimezone(dtm.timezone(dtm.timedelta(minutes=rng.choice(DT_OFFSETS)))), SKIP, True))
             for d in odd_datetimes()[:2]:
                 vals.append((d, SKIP, True))
             vals += [(None, None, True), ("2020-01-01", SKIP, False), (dtm.date(2020, 1, 1), SKIP, False)]
@@ -634,14 +746,16 @@ def run(chk: lib.Check):
                 continue
             for mi, (nm, m) in enumerate(ecls.__members__.items()):
                 vals.append((m, mi, True))
-                vals.append((nm, nm, True))
+                vals.append((nm, nm, True, m))
+            nm, m = rng.choice(list(ecls.__members__.items()))
+            vals.append((StrSub(nm), nm, True, m))
             vals += [("NO_SUCH_MEMBER", "NO_SUCH_MEMBER", False), (None, None, True)]
             dflt_enc = list(ecls.__members__.values()).index(desc.default)
         else:
             SR = pvmt_config.SelectorRules
             for raw in ["", "[CLASS]x[/CLASS]", "[PROPERTY]a.b<1[/PROPERTY]\n<&>\"", "é"]:
                 vals.append((SR(raw), [True, raw], True))
-                vals.append((raw, [False, raw], True))
+                vals.append((raw, [False, raw], True, SR(raw)))
             vals += [(SR("a\x00"), [True, "a\x00"], False), (None, None, True), (5, SKIP, False)]
             dflt_enc = desc.default.raw
 
@@ -650,7 +764,8 @@ def run(chk: lib.Check):
             pre_old = list(desc.enumcls.__members__.values())[-1].value
         if kc == 2:
             pre_old = rng.choice(["true", "false", "TRUE", "1", "", "true "])
-        for vi, (v, venc, valid) in enumerate(vals):
+        for vi, (v, venc, valid, *more) in enumerate(vals):
+            canon = more[0] if more else NOCANON
             # the element before: other attributes around, the target attribute present or not
             present = (vi % 2 == 0) if writable else (vi % 3 != 0)
             before = [("id", "u-1")]
@@ -720,6 +835,46 @@ def run(chk: lib.Check):
                             setattr(obj, name, rb)
                         if str(rb) != now or not wf or el.get(attr) != now:
                             chk.violation(f"html:{vkey}", f"{tag} = {srepr(v):.60}: stored {now!r:.60}, read {rb!r:.60}, well-formed={wf}, after re-assigning {el.get(attr)!r:.60}", rep)
+            # ---------------- the same value in another Python type the setter accepts: the XML must not depend on the type
+            if canon is not NOCANON:
+                el2 = etree.Element("e")
+                for k_, v_ in before:
+                    el2.set(k_, v_)
+                obj2 = make(cls, el2)
+                try:
+                    setattr(obj2, name, canon)
+                    err2 = None
+                except Exception as e:  # noqa: BLE001
+                    err2 = err_of(e)
+                cnt("alt_type_twins:" + type(v).__name__)
+                if (err is None) != (err2 is None) or list(el2.attrib.items()) != a_attrs:
+                    # one recorded case: the default of a PVMT selector given as str ("") is stored, given as SelectorRules("") it is elided
+                    tkey = "pvmt:default-as-str-kept" if kc == 7 and is_default(kc, canon, desc) and err is None and err2 is None \
+                        and now == desc.default.raw and el2.get(attr) is None else f"{vkey}:type-dependent"
+                    chk.violation(tkey, f"{tag} = {srepr(v):.70} ({type(v).__name__}) stores {now!r:.60} / {err}; the same value as "
+                                  f"{type(canon).__name__} ({srepr(canon):.60}) stores {el2.get(attr)!r:.60} / {err2}",
+                                  dict(rep, same_value_as=srepr(canon), type=type(v).__name__, canonical_type=type(canon).__name__,
+                                       attrs_after_canonical=[(k_, v_[:200]) for k_, v_ in list(el2.attrib.items())[:6]]))
+            # ---------------- what a reader of the saved XML sees: written by the real writer, parsed by lxml, read by the harness
+            if err is None and valid and now is not None and rb_err is None and len(now) < 5000:
+                try:
+                    seen_el = etree.fromstring(exs.to_bytes(el))
+                    seen_txt = seen_el.get(attr)
+                except Exception as e:  # noqa: BLE001
+                    seen_el, seen_txt = None, f"<{type(e).__name__}: {e}>"
+                cnt("xml_reader_checks")
+                if seen_txt != now or not indep_same(kc, rb, indep_read(kc, seen_txt, desc)):
+                    chk.violation(f"{vkey}:xml-reader", f"{tag} = {srepr(v):.60} reads back {rb!r:.60}; a reader of the written XML sees "
+                                  f"{attr}={seen_txt!r:.80} (in memory {now!r:.60})", dict(rep, xml_text_seen=str(seen_txt)[:300]))
+                elif seen_el is not None:
+                    try:
+                        rb3 = getattr(make(cls, seen_el), name)
+                        ok3 = same_value(kc, rb3, rb, desc, exact=True) if kc != 5 else dt_fields(rb3) == dt_fields(rb)
+                    except Exception as e:  # noqa: BLE001
+                        rb3, ok3 = err_of(e), False
+                    if not ok3:
+                        chk.violation(f"{vkey}:xml-reader", f"{tag} = {srepr(v):.60} reads back {rb!r:.60}, but {rb3!r:.60} from the written and re-parsed XML",
+                                      dict(rep, xml_text_seen=str(seen_txt)[:300]))
             # ---------------- correspondence with the model
             if venc is not SKIP:
                 out_rb = rb_err if rb_err is not None else enc_value(kc, rb, desc)
@@ -850,16 +1005,16 @@ def run(chk: lib.Check):
     lt_docs += [("line1\r\nline2", []), ("", [(live[0].uuid, True, " after")]),
                 ("before ", [(live[0].uuid, True, ""), (live[1].uuid, True, " end")])]
 
-    def name_html(uuid):
-        el_ = model._loader[uuid]
+    def name_html(uuid, loader=None):
+        el_ = (loader or model._loader)[uuid]
         n = el_.get("name")
         return _html.escape(n) if n else f"&lt;unnamed element {_html.escape(uuid)}&gt;"
 
-    def user_form(lead, links, *, as_read: bool):
+    def user_form(lead, links, *, as_read: bool, loader=None):
         s = _html.escape(lead)
         for uid, alive, tail in links:
             if alive or not as_read:
-                s += f'<a href="hlink://{_html.escape(uid)}">{name_html(uid) if alive else "gone"}</a>'
+                s += f'<a href="hlink://{_html.escape(uid)}">{name_html(uid, loader) if alive else "gone"}</a>'
             else:
                 s += f"&lt;deleted element {_html.escape(uid)}&gt;"
             s += _html.escape(tail)
@@ -920,6 +1075,185 @@ def run(chk: lib.Check):
     chk.correspond(IMPORTS, "w_lt_escape", ltc, tag="C07_lt")
     cnt("linked_texts", len(lt_docs))
 
+    # =================================================================== 3b. the specification as a MAP language -> text
+    # obj.specification is a mutable mapping; the XML holds two parallel lists (<bodies>, <languages>) paired by position.  Reference: a
+    # plain Python dict.  Histories of set-existing / set-new-language / delete / re-set / lookups of absent languages over specifications
+    # that start with zero, one and several languages (Capella's grouped layout B..B L..L and the interleaved one B L B L); after EVERY
+    # step every language reads back its own text through the mapping in hand and through a freshly fetched one, the others are
+    # unchanged, and a raw scan of the element pairs the i-th <languages> with the i-th <bodies> holding the stored form.
+    XSI_T = "{http://www.w3.org/2001/XMLSchema-instance}type"
+    LANG_POOL = ["Python", "OCL", "C++ (x<y)", "é lang", "capella:linkedText2", "Java ", "a&b", "LinkedText2", "python"]
+    PLAIN_TEXTS = ["x", "self.level >= 0.8", "a < b & \"c\" > d", "", "line1\nline2", " lead", "trail ", "é\U0001f600", "<b>not markup here</b>", "&amp;",
+                   "]]>", "\t", "x" * 700, "<a href=\"hlink://nope\">dead</a>"]
+    spec_stats = {"histories": 0, "steps": 0, "by_op": {}, "by_initial_languages": {"zero": 0, "one": 0, "several": 0}, "layouts": {},
+                  "set_new_on_nonempty": 0, "max_languages": 0, "markup_typed_values": 0, "live_histories": 0, "reloaded_specifications": 0}
+    con_cls = type(constraints[0]) if constraints else None
+
+    def spec_val(r_, lang, live_ids):
+        """a value for one language: (kind, payload)"""
+        if lang == "capella:linkedText":
+            links = [(r_.choice(live_ids), True, r_.choice(["", " tail", " a < b", " é"])) for _ in range(r_.choice([0, 0, 1, 2]))] if live_ids else []
+            return ("lt", r_.choice(["", "plain ", "x < 3 & y ", "é "]) + str(r_.randrange(1000)), links)
+        t_ = r_.choice(PLAIN_TEXTS) if r_.random() < 0.6 else rand_legal_str(r_, r_.randint(1, 25)).replace("\r", "")
+        return ("plain", t_ + ("" if t_ in ("", "\t") else str(r_.randrange(1000))))
+
+    def sv_write(val, loader=None):
+        return val[1] if val[0] == "plain" else user_form(val[1], val[2], as_read=False, loader=loader)
+
+    def sv_read(val, loader=None):
+        return val[1] if val[0] == "plain" else user_form(val[1], val[2], as_read=True, loader=loader)
+
+    def sv_raw(val):
+        return val[1] if val[0] == "plain" else stored_form(val[1], val[2])
+
+    def build_spec(r_, n, layout, live_ids):
+        """an <ownedConstraints> element with an opaque expression of n languages, written the raw way"""
+        c_el = etree.Element("ownedConstraints")
+        c_el.set(XSI_T, "org.polarsys.capella.core.data.capellacore:Constraint")
+        c_el.set("id", "c07-spec-%08x" % r_.getrandbits(32))
+        sp_el = etree.SubElement(c_el, "ownedSpecification")
+        sp_el.set(XSI_T, "org.polarsys.capella.core.data.information.datavalue:OpaqueExpression")
+        sp_el.set("id", "c07-oe-%08x" % r_.getrandbits(32))
+        exp = fill_spec(r_, sp_el, n, layout, live_ids)
+        return c_el, sp_el, exp
+
+    def fill_spec(r_, sp_el, n, layout, live_ids):
+        for ch in list(sp_el):
+            sp_el.remove(ch)
+        langs = (["capella:linkedText"] if n and r_.random() < 0.8 else []) + r_.sample(LANG_POOL, len(LANG_POOL))
+        langs = langs[:n]
+        r_.shuffle(langs)
+        exp = {k: spec_val(r_, k, live_ids) for k in langs}
+        bodies, lelems = [], []
+        for k in langs:
+            b_ = etree.Element("bodies")
+            b_.text = sv_raw(exp[k]) or None
+            l_ = etree.Element("languages")
+            l_.text = k
+            bodies.append(b_)
+            lelems.append(l_)
+        seq = bodies + lelems if layout == "grouped" else [x for pair in zip(bodies, lelems) for x in pair]
+        for x in seq:
+            sp_el.append(x)
+        return exp
+
+    def spec_verify(get_spec, in_hand, sp_el, exp, loader=None):
+        """problems of the mapping against the reference dict"""
+        out_ = []
+        for label, sp in (("in hand", in_hand), ("fresh", get_spec())):
+            try:
+                got_l = list(sp)
+                if got_l != list(exp) or len(sp) != len(exp):
+                    out_.append(f"{label}: languages {got_l!r} (len {len(sp)}), expected {list(exp)!r}")
+                    continue
+                for k, val in exp.items():
+                    g = str(sp[k])
+                    if g != sv_read(val, loader):
+                        out_.append(f"{label}: language {k!r} reads {g!r:.80}, its own text is {sv_read(val, loader)!r:.80}"
+                                    + "".join(f" [that is the text of {k2!r}]" for k2, v2 in exp.items() if k2 != k and g == sv_read(v2, loader)))
+                    if k == "capella:linkedText" and str(sp["LinkedText"]) != g:
+                        out_.append(f"{label}: alias 'LinkedText' reads {str(sp['LinkedText'])!r:.60}, 'capella:linkedText' reads {g!r:.60}")
+                for absent in ("No Such Language", "LinkedText" if "capella:linkedText" not in exp else "PYTHON"):
+                    if absent in exp:
+                        continue
+                    try:
+                        sp[absent]
+                        out_.append(f"{label}: absent language {absent!r} can be read")
+                    except KeyError:
+                        pass
+            except Exception as e:  # noqa: BLE001
+                out_.append(f"{label}: {type(e).__name__}: {e}")
+        kids = [ch for ch in sp_el if isinstance(ch.tag, str)]
+        raw_l = [ch.text or "" for ch in kids if ch.tag == "languages"]
+        raw_b = [ch.text or "" for ch in kids if ch.tag == "bodies"]
+        if raw_l != list(exp) or raw_b != [sv_raw(v_) for v_ in exp.values()] or len(kids) != 2 * len(exp):
+            out_.append(f"XML: languages {raw_l!r:.120} / bodies {raw_b!r:.160}, expected {[(k, sv_raw(v_)[:40]) for k, v_ in exp.items()]!r:.200}")
+        return out_
+
+    def spec_history(r_, get_spec, sp_el, exp, n_steps, live_ids, where, loader=None):
+        """runs one history; returns the log.  Violations are reported with the step that broke the map"""
+        n0 = len(exp)
+        bucket = "zero" if n0 == 0 else "one" if n0 == 1 else "several"
+        sp = get_spec()
+        log_ = [("initial", list(exp))]
+        bad = spec_verify(get_spec, sp, sp_el, exp, loader)
+        if bad:
+            chk.broken.append(f"harness: the specification map does not read its initial state ({where}, {n0} languages): {bad[0][:200]}")
+            return False
+        for step in range(n_steps):
+            nb = len(exp)
+            k = None
+            ops = ["set-new", "set-new"] + (["set-existing", "set-existing", "delete", "re-set", "del-absent"] if exp else ["del-absent"])
+            op = r_.choice(ops)
+            try:
+                if op == "set-existing":
+                    k = r_.choice(list(exp))
+                    val = spec_val(r_, k, live_ids)
+                    sp["LinkedText" if k == "capella:linkedText" and r_.random() < 0.5 else k] = sv_write(val, loader)
+                    exp[k] = val
+                elif op == "set-new":
+                    free = [x for x in LANG_POOL + ["capella:linkedText"] if x not in exp]
+                    if not free:
+                        continue
+                    k = r_.choice(free)
+                    val = spec_val(r_, k, live_ids)
+                    w_ = sv_write(val, loader)
+                    if val[0] == "plain" and r_.random() < 0.2:
+                        w_ = markupsafe.Markup(w_)              # the other str type callers hold
+                        spec_stats["markup_typed_values"] += 1
+                    sp["LinkedText" if k == "capella:linkedText" and r_.random() < 0.5 else k] = w_
+                    exp[k] = val
+                    spec_stats["set_new_on_nonempty"] += nb > 0
+                elif op == "delete":
+                    k = r_.choice(list(exp))
+                    del sp["LinkedText" if k == "capella:linkedText" and r_.random() < 0.5 else k]
+                    del exp[k]
+                elif op == "re-set":
+                    k = r_.choice(list(exp))
+                    val = spec_val(r_, k, live_ids)
+                    del sp[k]
+                    del exp[k]
+                    sp[k] = sv_write(val, loader)
+                    exp[k] = val
+                else:
+                    k = "No Such Language"
+                    try:
+                        del sp[k]
+                        raise AssertionError("deleting an absent language did not raise KeyError")
+                    except KeyError:
+                        pass
+                err_ = None
+            except Exception as e:  # noqa: BLE001
+                err_ = f"{type(e).__name__}: {e}"
+            log_.append((op, k))
+            spec_stats["steps"] += 1
+            spec_stats["by_op"][op] = spec_stats["by_op"].get(op, 0) + 1
+            spec_stats["max_languages"] = max(spec_stats["max_languages"], len(exp))
+            chk.note_case(("specmap", where, op, nb, step, r_.getrandbits(20)), nontrivial=True)
+            bad = [err_] if err_ else spec_verify(get_spec, sp if r_.random() < 0.8 else get_spec(), sp_el, exp, loader)
+            if bad:
+                nbk = "zero" if nb == 0 else "one" if nb == 1 else "several"
+                chk.violation(f"specmap:{op}:{nbk}-languages-before", f"specification map ({where}; started with {n0} languages; steps {log_[1:]!r:.300}): after "
+                              f"{op} of {k!r} on a specification with {nb} language(s): {bad[0][:300]}",
+                              {"where": where, "initial_languages": log_[0][1], "steps": [list(x) for x in log_[1:]], "problems": bad[:6],
+                               "expected": [(k_, sv_read(v_, loader)[:80]) for k_, v_ in exp.items()]})
+                return False
+        spec_stats["histories"] += 1
+        spec_stats["by_initial_languages"][bucket] += 1
+        return True
+
+    if con_cls is not None:
+        import random as _random
+        live_ids = [o.uuid for o in live]
+        for hi in range(150 if quick else 3000):
+            r_ = _random.Random(rng.getrandbits(48))
+            n0 = [0, 1, 1, 2, 3, 5][hi % 6]
+            layout = "grouped" if hi % 2 == 0 else "interleaved"
+            spec_stats["layouts"][layout] = spec_stats["layouts"].get(layout, 0) + 1
+            c_el, sp_el, exp = build_spec(r_, n0, layout, live_ids)
+            obj = make(con_cls, c_el)
+            spec_history(r_, lambda obj=obj: obj.specification, sp_el, exp, r_.randrange(2, 9), live_ids, f"fresh element, {layout} layout")
+
     # =================================================================== 4. live objects, save and reload
     # the assignments and save() run under a zone with DST, the reload under another environment (what was written carries its offset)
     import contextlib
@@ -967,12 +1301,14 @@ def run(chk: lib.Check):
         per_kind_vals = {
             0: lambda: rng.choice(["x", "<&>\"'", "\t\n\r x  ", "a\nb\r\nc", "é\u4e2d\U0001f600", "\x85\x7f", "", "&#xA;", "  two  spaces ",
                                    rand_legal_str(rng, 25), "L" * 3000]),
-            1: lambda: rng.choice(HTML_VALUES + [""]),
+            1: lambda: rng.choice([str, str, markupsafe.Markup, markupsafe.Markup, StrSub])(rng.choice(HTML_VALUES + [""])),
             2: lambda: rng.choice([True, False]),
-            3: lambda: rng.choice([0, 1, -1, 2**63, -10**30, rng.choice(ints)]),
-            4: lambda: rng.choice([0.0, -0.0, 1.5, 5e-324, 1.7976931348623157e308, 0.1, math.inf, rand_float(rng), 7]),
+            3: lambda: rng.choice([0, 1, -1, 2**63, -10**30, rng.choice(ints), True, IntSub.NEG, IntSub.BIG]),
+            4: lambda: rng.choice([0.0, -0.0, 1.5, 5e-324, 1.7976931348623157e308, 0.1, math.inf, rand_float(rng), 7, -3, 2**53 + 1, IntSub.SEVEN]),
             5: lambda: rng.choice(naive4) if rng.random() < 0.5 else rng.choice(dts),
         }
+        _pk0 = per_kind_vals[0]
+        per_kind_vals[0] = lambda: (lambda s_: rng.choice([str, str, str, markupsafe.Markup, StrSub])(s_))(_pk0())
         plan = []      # (uuid, attr name, xml attr, kind code, value, expected read-back, expected xml text)
         used = set()
         kinds_done: dict[int, int] = {}
@@ -1003,8 +1339,14 @@ def run(chk: lib.Check):
                 if not (v is None or is_default(kc, v, desc)) and not same_value(kc, rb, v, desc):
                     chk.violation(f"{value_key(v)}:readback", f"live {key}.{r[1]} = {srepr(v):.60} reads back {rb!r:.60}",
                                   {"class": key, "attribute": r[1], "value": repr(v)[:200], "uuid": o.uuid})
+                if kc == 1 and o._element.get(r[3]) is not None and (not xml_well_formed(o._element.get(r[3])) or str(rb) != o._element.get(r[3])):
+                    chk.violation(f"html:{value_key(v)}", f"live {key}.{r[1]} = {srepr(v):.60} ({type(v).__name__}) stores {o._element.get(r[3])!r:.80} "
+                                  f"(well-formed={xml_well_formed(o._element.get(r[3]))}) and reads back {str(rb)!r:.60}",
+                                  {"class": key, "attribute": r[1], "value": repr(v)[:200], "type": type(v).__name__, "uuid": o.uuid})
                 used.add((o.uuid, r[3]))
                 kinds_done[kc] = kinds_done.get(kc, 0) + 1
+                if type(v) in (markupsafe.Markup, StrSub, IntSub, DtSub) or (kc in (3, 4) and type(v) in (bool, int) and kc == 4) or (kc == 3 and type(v) is bool):
+                    cnt("live_alt_type_values:" + type(v).__name__)
                 plan.append((o.uuid, r[1], r[3], kc, v, rb, o._element.get(r[3])))
                 chk.note_case(("live", o.uuid, r[1]))
             if len(plan) >= budget:
@@ -1019,6 +1361,25 @@ def run(chk: lib.Check):
                 lt_plan.append((c_.uuid, str(c_.specification["LinkedText"])))
             except Exception:  # noqa: BLE001
                 pass
+        # specification maps of live constraints (zero / one / several languages written the raw way, then a history through the API);
+        # every language is read again after save + reload, through the reloaded mapping and by a raw scan of the saved file
+        spec_live = []
+        if con_cls is not None:
+            import random as _random
+            live_ids4 = []
+            for o in live:
+                with contextlib.suppress(KeyError):
+                    m1._loader[o.uuid]
+                    live_ids4.append(o.uuid)
+            cons4 = [c_ for c_ in m1.search("Constraint") if next(c_._element.iterchildren("ownedSpecification"), None) is not None][6:]
+            for ci, c_ in enumerate(cons4[: (14 if quick else 28)]):
+                r_ = _random.Random(rng.getrandbits(48))
+                sp_el = next(c_._element.iterchildren("ownedSpecification"))
+                layout = "grouped" if ci % 2 == 0 else "interleaved"
+                exp = fill_spec(r_, sp_el, [1, 0, 2, 1, 3, 1][ci % 6], layout, live_ids4)
+                if spec_history(r_, lambda c_=c_: c_.specification, sp_el, exp, r_.randrange(2, 7), live_ids4, f"live model, {layout} layout", loader=m1._loader):
+                    spec_live.append((c_.uuid, exp))
+                    spec_stats["live_histories"] += 1
         m1.save()
         envs.close()
         envs.enter_context(use_env(env4_reload))
@@ -1049,6 +1410,18 @@ def run(chk: lib.Check):
                               f"{type(o2).__name__}.{name} = {srepr(v):.60}: before save {rb!r:.60} (XML {xml_text!r:.60}), after reload {rb2!r:.60} (file {rawtxt!r:.60})",
                               {"uuid": uuid, "attribute": name, "value": repr(v)[:200], "before": repr(rb)[:200], "after": repr(rb2)[:200],
                                "xml_before": xml_text, "xml_after": rawtxt})
+        for uuid, exp in spec_live:
+            sp_raw = next((ch for ch in raw[uuid] if ch.tag == "ownedSpecification"), None) if uuid in raw else None
+            try:
+                bad = (spec_verify(lambda: m2.by_uuid(uuid).specification, m2.by_uuid(uuid).specification, sp_raw, exp, loader=m2._loader)
+                       if sp_raw is not None else ["the constraint / its specification is not in the saved file"])
+            except Exception as e:  # noqa: BLE001
+                bad = [f"{type(e).__name__}: {e}"]
+            spec_stats["reloaded_specifications"] += 1
+            if bad:
+                chk.violation("specmap:reload", f"specification of {uuid} after save + reload: {bad[0][:300]}",
+                              {"uuid": uuid, "problems": bad[:6], "expected": [(k_, sv_read(v_, m2._loader)[:80]) for k_, v_ in exp.items()]})
+        chk.coverage["specification_maps"] = spec_stats
         for uuid, txt in lt_plan:
             back = str(m2.by_uuid(uuid).specification["LinkedText"])
             if back != txt:
@@ -1102,6 +1475,9 @@ def srepr(v) -> str:
 
 
 def value_key(v, kc: int = -1) -> str:
+    if type(v) in (markupsafe.Markup, StrSub, IntSub, DtSub):
+        base = str(v) if isinstance(v, str) else int(v) if isinstance(v, int) else dtm.datetime(2000, 1, 1, tzinfo=v.tzinfo)
+        return type(v).__name__ + "~" + value_key(base, kc)
     if v is None:
         return "none"
     if isinstance(v, bool):
@@ -1127,7 +1503,7 @@ def is_default(kc: int, v, desc) -> bool:
     if kc == 2:
         return v is d
     if kc == 3:
-        return isinstance(v, int) and not isinstance(v, bool) and v == d
+        return isinstance(v, int) and v == d          # False == 0: the default (bool is an int)
     if kc == 4:
         return isinstance(v, (int, float)) and not isinstance(v, bool) and not math.isnan(v) and float(v) == d
     if kc == 5:
